@@ -672,6 +672,27 @@ def run(ctx):
     from rules import C09 as _C09
     ctx.borrow(_C09, {"C09.R3b": ("C10.R14", "the incremental Recon parser under the typed decoders never decides a token before its end is in sight (C09.R3b)")})
 
+    with ctx.rule("C10.R15", "T2", "consume_bounded always consults the inner decoder, and ends a body whose last byte is in the buffer with decode_eof", floor=2) as r:
+        # a body of declared length 0 is complete with no bytes at all: the inner decoder's decode_eof yields its value (Extant for a Recon body). A
+        # path that returns without calling the decoder - `if src.is_empty() { return (0, Ok(None)) }` - withholds such a frame until bytes of the next
+        # one arrive, or drops it when the stream ends first.
+        enc_ = ctx.crate("swimos_encoding")
+        cb = [enc_.body(e) for e in enc_.entries(name="consume_bounded")]
+        if len(cb) != 1:
+            raise AnchorMissing("swimos_encoding::consume_bounded")
+        cb = ctx.saw(cb[0])
+        dec = [c for c in cb.calls if c.via_name in ("decode", "decode_eof")]
+        ok, wit = cb.must_pass([0], {c.block for c in dec})
+        r.check(ok and bool(dec), "consume_bounded/every-path-consults-the-decoder", where(cb), "every call hands the available bytes (possibly none) to the inner decoder",
+                "consume_bounded can return without calling the inner decoder (path %s): a body of length zero (the Recon of Extant / None), or whose remaining bytes are zero, is never completed with decode_eof - the frame is withheld until later bytes arrive, or lost at the end of the stream" % (wit,))
+        eofs = [c for c in dec if c.via_name == "decode_eof"]
+        plain = [c for c in dec if c.via_name == "decode"]
+        good = bool(eofs) and all(any(re.match(r"^Le\(remaining, ", d) and l == "true" for d, l, _ in dom_guards(cb, c.block)) or any(re.match(r"^(Gt|Lt)\(", d) and "remaining" in d for d, l, _ in dom_guards(cb, c.block)) for c in eofs) \
+            and all(any(re.match(r"^Le\(remaining, ", d) and l == "false" for d, l, _ in dom_guards(cb, c.block)) or any(re.match(r"^(Gt|Lt)\(", d) and "remaining" in d for d, l, _ in dom_guards(cb, c.block)) for c in plain)
+        r.check(good, "consume_bounded/decode_eof-iff-body-complete", where(cb), "decode_eof is used exactly when the bytes still expected are all in the buffer (remaining <= available)",
+                "decode_eof / decode are not chosen by `remaining <= available`")
+
+
 
 def _short(d):
     d = re.sub(r"\(.*?\)", "()", d)
